@@ -2,6 +2,7 @@ package symex
 
 import (
 	"fmt"
+	"math/big"
 	"sort"
 	"strings"
 	"time"
@@ -25,7 +26,7 @@ type WVal struct {
 // the region or loop the obligation belongs to). small adds the hypothesis that every integer witness lies within
 // [-bound, bound] (so that the model can be replayed on the real code); it returns ok == false if the solver does not
 // answer sat.
-func Witness(o *Oblig, bound int64, timeout time.Duration) (map[string]WVal, string, bool) {
+func Witness(o *Oblig, bound int64, timeout time.Duration, block []map[string]WVal) (map[string]WVal, string, bool) {
 	if len(o.Report) == 0 {
 		return nil, "", false
 	}
@@ -43,6 +44,21 @@ func Witness(o *Oblig, bound int64, timeout time.Duration) (map[string]WVal, str
 		rep = append(rep, w)
 		if bound > 0 && t.S == smt.Int {
 			hyps = append(hyps, smt.Le(smt.IntC(-bound), w), smt.Le(w, smt.IntC(bound)))
+		}
+	}
+	// earlier models that did not fail on the real code are excluded (their integer witnesses taken together)
+	for _, b := range block {
+		var eqs []*smt.Term
+		for _, n := range names {
+			if v, ok := b[n]; ok && v.Kind == "int" && o.Report[n].S == smt.Int {
+				bi, ok2 := new(big.Int).SetString(v.Int, 10)
+				if ok2 {
+					eqs = append(eqs, smt.Eq(smt.Var("w!"+n, smt.Int), smt.BigC(bi)))
+				}
+			}
+		}
+		if len(eqs) > 0 {
+			hyps = append(hyps, smt.Not(smt.And(eqs...)))
 		}
 	}
 	all := append([]*smt.Term(nil), hyps...)
